@@ -365,3 +365,38 @@ Lemma Z_of_N_ltb (a b : N) : (Z.of_N a <? Z.of_N b) = (a <? b)%N.
 Proof. lia. Qed.
 Lemma Z_of_N_leb (a b : N) : (Z.of_N a <=? Z.of_N b) = (a <=? b)%N.
 Proof. lia. Qed.
+
+(** * State machines (gotrans2.go)
+
+    Results of definitions that can panic or contain a loop on fuel. *)
+Inductive go_res (A : Type) : Type :=
+| GoOk (a : A)
+| GoPanic (why : string)
+| GoOutOfFuel.
+Arguments GoOk {A} a.
+Arguments GoPanic {A} why.
+Arguments GoOutOfFuel {A}.
+
+Definition go_bind {A B} (r : go_res A) (f : A -> go_res B) : go_res B :=
+  match r with
+  | GoOk a => f a
+  | GoPanic w => GoPanic w
+  | GoOutOfFuel => GoOutOfFuel
+  end.
+
+Lemma go_bind_ok {A B} (a : A) (f : A -> go_res B) : go_bind (GoOk a) f = f a.
+Proof. reflexivity. Qed.
+
+(** ** The abstract lexer ([*lexing.Lexer] over its rune scanner).
+
+    State: [inp] = the runes not yet consumed, its head is the current rune
+    [x.Rune()], [[]] is [x.Ended()] (then [x.Rune()] is 0, what
+    [lexScanner.next] returns with the error); [buf] = the scanning buffer;
+    [errs] = the errors reported through [x.Errorf] / [x.CodeErrorf], before
+    [ErrorList]'s cap.  [x.Next()] pushes the current rune into the buffer and
+    moves on; on an ended lexer it is the Go panic "scanning on closed rune
+    scanner".  [x.MakeToken(t)] yields [(t, buf)] and empties the buffer.
+    Positions are not modelled.  Runes are [Z] (Go's [rune] = [int32]). *)
+Definition lexer_Rune (inp : list Z) : Z := hd 0 inp.
+Definition lexer_Ended (inp : list Z) : bool := match inp with [] => true | _ => false end.
+Definition lexer_Buffered (buf : list Z) : list N := utf8_encode (map Z.to_N buf).
